@@ -103,6 +103,15 @@ def run(facts, res):
                 pv = {x[1] for x in walk(du.operand_term(st.rv.operands()[f.index("parents")], 20)) if x[0] == "var"}
                 if av & pv:
                     ok = True
+                # ... or both derive from the same call of get_anchors (the set read back out of the block being built)
+                ga_ = lambda tt_: {x[3] for x in walk(tt_) if x[0] == "call" and callee_name(x) == "get_anchors"}
+                if ga_(arg_term(c, t, 1, 20)) & ga_(du.operand_term(st.rv.operands()[f.index("parents")], 20)):
+                    ok = True
+                # ... or reads it back out of the block being built (`match &delta.parents { Some(anchors) => new_from_anchors(.., anchors) }`)
+                if st.place is not None and not st.place.proj and any(
+                        x[0] == "field" and x[2] == "parents" and any(y[0] == "var" and y[1] == st.place.local for y in walk(x[1]))
+                        for x in walk(arg_term(c, t, 1, 20))):
+                    ok = True
         res.instance("N1", "commit: the id constructor receives the same anchor set that is serialised as parents: %s" % ok, c.loc())
         if not ok:
             res.violation("N1", "commit|index-not-from-serialised-parents", "commit computes the block index from a different set than the parents it serialises", c.loc())
